@@ -11,13 +11,13 @@ CHECKS = {
             "Totality and the error contract over generated (string, settings, languages/locales/region, date_formats) tuples with boundary-biased reference times (datetime.min/max, aware bases); invalid-settings sub-generator requires the documented exception from every entry point whatever the string is (blank, timestamp, format-matching strings included); parse, get_date_data and get_date_tuple must agree in shape.",
             "Only resolvable timezone names; 10-entry settings pool under autodetection (cost); TZ=UTC.", "DESIGN.md §4 C02"),
     "C03": ("exploration", "stateful property-based testing (Hypothesis-generated call histories, whole history shrinks) against a fresh-process oracle (forked pristine child per call, validated with real interpreters under several PYTHONHASHSEED values)",
-            "Histories of parse / DateDataParser creation and reuse / search_dates / calendar / failing calls over settings variants, executed in a forked child; every step's outcome must equal the same call alone in a fresh fork, passed-in containers must stay unmodified and default-settings probes must keep their fresh values. Directed 'setup, interference, probe' triples (equal / one-key-different / explicit-default / order-only-different settings, repeated searches) and free histories, from cold and warmed start states.",
+            "Histories of parse / DateDataParser creation and reuse / search_dates / calendar / failing calls over settings variants, executed in a forked child; every step's outcome must equal the same call alone in a fresh fork, passed-in containers must stay unmodified and default-settings probes must keep their fresh values. Directed 'setup, interference, probe' triples (equal / one-key-different / one-value-different / explicit-default / order-only-different settings, repeated searches, several live parsers, a NORMALIZE x SKIP_TOKENS matrix on one locale, zone and autodetect sequences) and free histories, from cold and warmed start states.",
             "A fork of a process that only imported dateparser stands for a fresh process (validated against new interpreters).", "DESIGN.md §4 C03"),
     "C17": ("exploration", "property-based testing / structured fuzzing (Hypothesis) of search_dates with a well-formedness oracle; walk over all 205 languages; thorough adds a coverage-guided atheris/libFuzzer campaign",
             "Texts built from corpus dates of the requested language, filler and mutated punctuation, for every language explicitly, multi-language and autodetect: no exception, None or non-empty list, tuple arity, non-blank in-text substrings in text order, datetime values, language element among the requested.",
             "Valid language codes only; frozen clock.", "DESIGN.md §4 C17"),
     "C20": ("exploration", "harness-owned thread schedules (sys.settrace preemption of A at its k-th library line, B to completion) enumerated over distinct lines and drawn by Hypothesis; oracle = results of the same calls alone",
-            "20 call pairs x 2 directions x {warm, cold start} x preemption at the first occurrence of every distinct (file, line, calling context) the preempted call executes + random k; every schedule in a forked child from a per-pair zygote; lock-holding callback points are detected and counted as infeasible. Six recorded findings (three root causes: shared Settings, shared Locale dictionary, search RELATIVE_BASE; no locking), each keyed by pair, direction, side and wrong outcome.",
+            "22 call pairs (incl. error-path calls) x 2 directions x {warm, cold start} x preemption at the first occurrence of every distinct (file, line, calling context) the preempted call executes + random k; every schedule in a forked child from a per-pair zygote; lock-holding callback points are detected and counted as infeasible. Six recorded findings (three root causes: shared Settings, shared Locale dictionary, search RELATIVE_BASE; no locking), each keyed by pair, direction, side and wrong outcome.",
             "One preemption, run-to-completion schedules only (the property's own quantifier); real threads, deterministic given k.", "DESIGN.md §4 C20"),
     "C04": ("exploration", "property-based testing (Hypothesis) against an independent calendar-arithmetic oracle; thorough adds an exhaustive units x n x direction x base grid",
             "Generated phrases (1-3 units, counts 0..5000, decimals, fixed words, clock times, RETURN_TIME_AS_PERIOD) over boundary-biased bases given as RELATIVE_BASE or frozen clock, compared with integer month arithmetic + exact timedelta written in the harness (no relativedelta); implicit-now stage against pytz for TIMEZONE/TO_TIMEZONE pairs.",
@@ -40,13 +40,13 @@ CHECKS = {
     "C05": ("exploration", "exhaustive table walk + property-based sampling (Hypothesis): every listed month/weekday name parsed and compared with the meaning the data declares",
             "Complete walk over all 504 locale codes x NORMALIZE on/off x SKIP_TOKENS default/[] x every single-meaning month/weekday spelling (exhaustive in the thorough tier, all languages + 20% of regional locales in quick), plus Hypothesis sampling of days/years/reference dates. 51 (language, name) pairs that fail on the pinned tree (shadowed or normalisation-colliding names) are listed as known findings; any other failing name is a violation.",
             "The data module's key is the name's meaning; harness-side overlay of locale_specific; frozen clock via module-level datetime replacement.", "DESIGN.md §4 C05"),
-    "C10": ("exploration", "metamorphic property-based testing (Hypothesis): strict vs loose parse and two distant frozen reference times; thorough walks the whole corpus x all modes",
+    "C10": ("exploration", "metamorphic property-based testing (Hypothesis): strict vs loose parse and two distant frozen reference times; enumerated walk of the whole corpus (quick: two seeded modes per string, thorough: all modes)",
             "For corpus strings, generated partial dates in every language, custom-format strings and timestamps: strict(s) is None or equals loose(s); strict results (and required parts) are equal at two reference times >=10 years apart; generated strings that lack a demanded part never yield a result.",
             "One language per case; relative-time parser off; frozen clock.", "DESIGN.md §4 C10"),
-    "C12": ("exploration", "differential property-based testing (Hypothesis) against pytz; child interpreters for the process-local zone; thorough adds an exhaustive 60x60 zone-pair grid",
+    "C12": ("exploration", "differential property-based testing (Hypothesis) against pytz; enumerated same-name and own-abbreviation pair stages; child interpreters for the process-local zone; thorough adds an exhaustive 60x60 zone-pair grid",
             "Ordered zone pairs x unambiguous local datetimes (DST-adjacent over-weighted) x 4 parser kinds x 3 awareness settings x optional own zone, compared with A.localize(d).astimezone(B); TIMEZONE='local' cases are run in subprocesses under 5 TZ values.",
             "pytz is the reference; dual pytz/table names excluded; zero-delta relative phrases.", "DESIGN.md §4 C12"),
-    "C13": ("exploration", "compositional/metamorphic property-based testing (Hypothesis): multi-language result vs first successful single-language result; autodetect re-parse; locale vs language+region",
+    "C13": ("exploration", "compositional/metamorphic property-based testing (Hypothesis): multi-language result vs first successful single-language result; autodetect re-parse; locale vs language+region; convenience function vs class; enumerated corpus walk",
             "Four experiments over the corpus: multi == first non-None single in priority/given order with locale membership and DEFAULT_LANGUAGES neutrality; autodetect reproducibility; locales=[loc] == languages+region with loc's own date order; languages + partly invalid region against per-language locales with loader caches reset.",
             "Frozen clock, default settings; fallback to the plain language when lang-REGION is not listed.", "DESIGN.md §4 C13"),
     "C14": ("exploration", "round-trip property-based testing (Hypothesis) over generated strptime formats + exhaustive walk of localised month/weekday names",
@@ -55,7 +55,7 @@ CHECKS = {
     "C15": ("exploration", "exhaustive calendar walk (thorough) / month boundaries + Hypothesis sampling (quick), differential against the conversion libraries, an independent arithmetic Jalali algorithm and day-consecutiveness",
             "Jalali 1200-1500 and Hijri 1343-1500 dates in numeric, named-month, Persian-digit, weekday, spelled-day and time spellings parsed by JalaliCalendar/HijriCalendar and compared with convertdate/hijridate called directly; arithmetic Jalali oracle admitted per year by a self-check; next-day consecutiveness at month ends.",
             "convertdate/hijridate are the reference conversions; valid unambiguous dates only.", "DESIGN.md §4 C15"),
-    "C18": ("exploration", "metamorphic property-based testing (Hypothesis): whitespace rewritings and all Unicode Nd digit blocks vs the base parse; thorough walks the corpus x all rewritings",
+    "C18": ("exploration", "metamorphic property-based testing (Hypothesis): whitespace rewritings and all Unicode Nd digit blocks vs the base parse; enumerated corpus walk (quick: all whitespace rewritings + two digit blocks per string, thorough: all blocks)",
             "Corpus strings and generated dates in every language: 9 whitespace rewritings and every decimal-digit script (enumerated from unicodedata) must give the same (date, period) as the base string, with a fixed language or autodetection.",
             "Frozen clock; same parser instance for base and rewritten string.", "DESIGN.md §4 C18"),
     "C16": ("exploration", "exhaustive regenerate-and-compare of all generated artefacts + differential property-based test (Hypothesis) of the loaded vs rebuilt timezone table",
